@@ -459,3 +459,103 @@ impl<'a, A: Adapter<'a, Vertex = GV> + 'a> Adapter<'a> for CountingAdapter<A> {
         self.inner.resolve_coercion(input, type_name, coerce_to_type, resolve_info)
     }
 }
+
+// ---------------------------------------------------------------------------------------------
+// work budget (harness protection, not an oracle)
+
+/// Shared pull budget: once it is used up every iterator handed to or received from the inner adapter ends early
+/// and `exhausted` is set; the caller must then discard the case (the truncated result means nothing).
+#[derive(Debug)]
+pub struct Budget {
+    left: Cell<u64>,
+    exhausted: Cell<bool>,
+}
+
+impl Budget {
+    pub fn new(pulls: u64) -> Rc<Self> {
+        Rc::new(Self { left: Cell::new(pulls), exhausted: Cell::new(false) })
+    }
+    pub fn exhausted(&self) -> bool {
+        self.exhausted.get()
+    }
+    fn take(&self) -> bool {
+        let l = self.left.get();
+        if l == 0 {
+            self.exhausted.set(true);
+            false
+        } else {
+            self.left.set(l - 1);
+            true
+        }
+    }
+}
+
+pub struct BudgetAdapter<A> {
+    pub inner: A,
+    pub budget: Rc<Budget>,
+}
+
+impl<A> BudgetAdapter<A> {
+    pub fn new(inner: A, pulls: u64) -> (Self, Rc<Budget>) {
+        let budget = Budget::new(pulls);
+        (Self { inner, budget: budget.clone() }, budget)
+    }
+}
+
+impl<'a, A: Adapter<'a, Vertex = GV> + 'a> Adapter<'a> for BudgetAdapter<A> {
+    type Vertex = GV;
+
+    fn resolve_starting_vertices(
+        &self,
+        edge_name: &Arc<str>,
+        parameters: &EdgeParameters,
+        resolve_info: &ResolveInfo,
+    ) -> VertexIterator<'a, Self::Vertex> {
+        let b = self.budget.clone();
+        let inner = self.inner.resolve_starting_vertices(edge_name, parameters, resolve_info);
+        Box::new(inner.take_while(move |_| b.take()))
+    }
+
+    fn resolve_property<V: AsVertex<Self::Vertex> + 'a>(
+        &self,
+        contexts: ContextIterator<'a, V>,
+        type_name: &Arc<str>,
+        property_name: &Arc<str>,
+        resolve_info: &ResolveInfo,
+    ) -> ContextOutcomeIterator<'a, V, FieldValue> {
+        let b = self.budget.clone();
+        let input: ContextIterator<'a, V> = Box::new(contexts.take_while(move |_| b.take()));
+        self.inner.resolve_property(input, type_name, property_name, resolve_info)
+    }
+
+    fn resolve_neighbors<V: AsVertex<Self::Vertex> + 'a>(
+        &self,
+        contexts: ContextIterator<'a, V>,
+        type_name: &Arc<str>,
+        edge_name: &Arc<str>,
+        parameters: &EdgeParameters,
+        resolve_info: &ResolveEdgeInfo,
+    ) -> ContextOutcomeIterator<'a, V, VertexIterator<'a, Self::Vertex>> {
+        let b = self.budget.clone();
+        let b2 = self.budget.clone();
+        let input: ContextIterator<'a, V> = Box::new(contexts.take_while(move |_| b.take()));
+        let inner = self.inner.resolve_neighbors(input, type_name, edge_name, parameters, resolve_info);
+        Box::new(inner.map(move |(ctx, neighbors)| {
+            let b3 = b2.clone();
+            let wrapped: VertexIterator<'a, GV> = Box::new(neighbors.take_while(move |_| b3.take()));
+            (ctx, wrapped)
+        }))
+    }
+
+    fn resolve_coercion<V: AsVertex<Self::Vertex> + 'a>(
+        &self,
+        contexts: ContextIterator<'a, V>,
+        type_name: &Arc<str>,
+        coerce_to_type: &Arc<str>,
+        resolve_info: &ResolveInfo,
+    ) -> ContextOutcomeIterator<'a, V, bool> {
+        let b = self.budget.clone();
+        let input: ContextIterator<'a, V> = Box::new(contexts.take_while(move |_| b.take()));
+        self.inner.resolve_coercion(input, type_name, coerce_to_type, resolve_info)
+    }
+}
